@@ -580,7 +580,7 @@ def run(ctx):
         c = {k: inp[k] for k in ("target", "recursive", "check", "force")}
         run_specs(ctx, [spec], nproc=1, cases_of=lambda s, c=c: [c], variant=variant)
     run_specs(ctx, directed_specs(), variant=variant)
-    n = ctx.size(80, 1200)
+    n = ctx.size(80, 1000)
     specs = [stackgen.gen_spec(ctx.rng) for _ in range(n)]
     for s in specs[:2]:
         ctx.sample({"products": s["products"], "shape": s["shape"], "commands": "every product x recursive x check x force"})
